@@ -28,6 +28,11 @@ import (
 type runner struct {
 	c         *tsm1.Cache
 	snapTaken atomic.Bool
+	// emu plays the role of Engine.mu: WritePoints holds it shared around Cache.WriteMulti,
+	// WriteSnapshot holds it exclusively around Cache.Snapshot.  Without it a WriteMulti
+	// that fetched c.store before the swap writes into the (read-only) snapshot store and
+	// its size lands on the wrong counter (observed: `snap 48 2` for 64 bytes held).
+	emu sync.RWMutex
 }
 
 func newRunner(max uint64) *runner {
@@ -216,7 +221,9 @@ func (r *runner) exec(o op) string {
 			// WriteMulti keeps the slice it is given: hand it a private copy
 			m[e.k] = append([]tsm1.Value(nil), e.vs...)
 		}
+		r.emu.RLock()
 		err := r.c.WriteMulti(m)
+		r.emu.RUnlock()
 		switch {
 		case err == nil:
 			return "ok"
@@ -230,6 +237,8 @@ func (r *runner) exec(o op) string {
 		}
 		return "err-other"
 	case "snapshot":
+		r.emu.Lock()
+		defer r.emu.Unlock()
 		s, err := r.c.Snapshot()
 		if err != nil {
 			if errors.Is(err, tsm1.ErrSnapshotInProgress) {
